@@ -126,6 +126,10 @@ class JSONPointer:
         return index
 
     def _getitem(self, obj: Any, key: Any) -> Any:  # noqa: PLR0912
+        if isinstance(obj, str):
+            # A JSON string has no children. Don't index into its characters.
+            raise JSONPointerTypeError(f"{key}: can't resolve against a string")
+
         try:
             return getitem(obj, key)
         except KeyError as err:
